@@ -271,4 +271,30 @@ def run(prop, tier, seed, replay):
                 if want is not None and abs(mra - want) > 1e-7:
                     ck.add_violation(f"mean of the single point RA={rr[0]} is RA={mra}, expected {want}",
                                      {"ra": rr.tolist(), "dec": dd_.tolist()})
+    # ---- stratum: the same instance used repeatedly — what a call returns is the caller's to modify, and an instance
+    #      answers for the coordinates it holds NOW (it wraps the caller's float64 buffer without copying)
+    for k in (1, 3, 8):
+        buf = np.column_stack([nprng.uniform(0, 2 * np.pi, k), np.arcsin(nprng.uniform(-1, 1, k))])
+        other = AngularCoordinates(np.column_stack([nprng.uniform(0, 2 * np.pi, k), np.arcsin(nprng.uniform(-1, 1, k))]))
+        c = AngularCoordinates(buf)
+        rep = {"points": buf.tolist(), "other": other.data.tolist()}
+        xyz = c.to_3d()
+        d_first = c.distance(other).data.copy()
+        m_first = c.mean().data.copy()
+        xyz *= 3.7                                   # the caller's own array
+        ck.case(None, ("reuse", k))
+        fresh = AngularCoordinates(buf.copy())
+        if not (np.array_equal(c.to_3d(), fresh.to_3d()) and np.array_equal(c.distance(other).data, d_first)
+                and np.array_equal(c.mean().data, m_first)):
+            ck.add_violation("scaling the array returned by to_3d() in place changes later results of the same instance "
+                             "(to_3d / distance / mean)", dict(rep, step="scaled the returned unit vectors by 3.7"))
+            continue
+        buf[:, 0] = (buf[:, 0] + 1.0) % (2 * np.pi)    # the coordinates themselves change (shared buffer)
+        buf[:, 1] = -buf[:, 1]
+        fresh = AngularCoordinates(buf.copy())
+        if np.array_equal(c.data, fresh.data) and not (
+                np.array_equal(c.to_3d(), fresh.to_3d()) and np.array_equal(c.distance(other).data, fresh.distance(other).data)
+                and np.array_equal(c.mean().data, fresh.mean().data)):
+            ck.add_violation("an instance whose coordinates (.ra / .dec) read the new values still answers to_3d / distance / "
+                             "mean for the old ones", dict(rep, step="coordinate buffer changed in place", new=buf.tolist()))
     return ck.finish()
